@@ -275,7 +275,25 @@ func (f *fields) delAt(i int) bool {
 	copy(a[i:], a[i+1:])
 	a[len(a)-1] = nil
 	f.a = a[:len(a)-1]
+
+	// the elements behind i moved down by one position: keep the index
+	// recorded in their context in sync, so Path and FlattenedKeys report
+	// where they are now
+	for j := i; j < len(f.a); j++ {
+		setContextField(f.a[j], fmt.Sprintf("%d", j))
+	}
 	return true
+}
+
+// setContextField updates the name/index under which v is stored in its parent.
+func setContextField(v value, field string) {
+	if sub, ok := v.(cfgSub); ok {
+		sub.c.ctx.field = field
+		return
+	}
+	ctx := v.Context()
+	ctx.field = field
+	v.SetContext(ctx)
 }
 
 func (f *fields) set(name string, v value) {
